@@ -383,21 +383,51 @@ def rrset_of_case(rs, rel):
 
 
 def run_feed(case):
+    """process_message called by hand inside `with dns.xfr.Inbound(...)`.  How the block is left (case[9], default 0):
+    0 = an exception from process_message propagates through the with statement; the messages may also run out
+        before the transfer is done, then the block is left normally;
+    1 = the exception is caught INSIDE the block, which is then left normally;
+    2 = the caller stops reading with an explicit break (one more message would have been available)."""
     _, zk, rel, rdt, ser, udp, z0, ms = case[:8]
+    shape = case[9] if len(case) > 9 else 0
     z = build_zone(zk % 3, rel, z0)
     res = []
+
+    def parsed(rc, qs, rrsets):
+        m = dns.message.QueryMessage(id=1)
+        m.flags = dns.flags.QR
+        m.set_rcode(rc)
+        for qn, qt in qs:
+            m.question.append(dns.rrset.RRset(zname(qn, rel), IN, qt))
+        for rs in rrsets:
+            m.answer.append(rrset_of_case(rs, rel))
+        return m
+
     try:
         with dns.xfr.Inbound(z, rdt, ser, bool(udp)) as inbound:
-            for rc, qs, rrsets in ms:
-                m = dns.message.QueryMessage(id=1)
-                m.flags = dns.flags.QR
-                m.set_rcode(rc)
-                for qn, qt in qs:
-                    m.question.append(dns.rrset.RRset(zname(qn, rel), IN, qt))
-                for rs in rrsets:
-                    m.answer.append(rrset_of_case(rs, rel))
-                done = inbound.process_message(m)
-                res.append(1000 if done else 0)
+            if shape == 1:
+                try:
+                    for rc, qs, rrsets in ms:
+                        done = inbound.process_message(parsed(rc, qs, rrsets))
+                        res.append(1000 if done else 0)
+                except Exception as e:  # noqa
+                    c = exc_code(e)
+                    if c.code >= 800:
+                        return c
+                    res.append(c.code)
+            elif shape == 2:
+                todo = list(ms) + [None]
+                i = 0
+                while True:
+                    if todo[i] is None:
+                        break
+                    done = inbound.process_message(parsed(*todo[i]))
+                    res.append(1000 if done else 0)
+                    i += 1
+            else:
+                for rc, qs, rrsets in ms:
+                    done = inbound.process_message(parsed(rc, qs, rrsets))
+                    res.append(1000 if done else 0)
     except Exception as e:  # noqa
         c = exc_code(e)
         if c.code >= 800:
@@ -1551,6 +1581,58 @@ def feed_cases(ctx, rng, n):
         yield "feed", [2, zk, rel, rdt, ser, udp, zdump(chain[0]), msgs, [ANY, None]]
 
 
+def usage_cases(ctx, rng, n):
+    """the ways a caller of dns.xfr.Inbound leaves the with-block before the transfer is done: the messages run out
+    (stream ends early), the error of process_message is caught inside the block, an explicit break; on every zone
+    kind, IXFR / AXFR / AXFR-style IXFR, with at least one record applied to the transaction before.  The zone must
+    be what it was (Inbound.__exit__ rolls the unfinished transaction back)."""
+    for _ in range(n):
+        zk, rel = zk_rel(rng)
+        zk %= 3
+        chain = gen_chain(rng, rng.choice([1, 2, 3]), size=rng.choice([2, 4, 8]), nops=rng.choice([2, 3, 6]))
+        s0 = soa_id(chain[0]) & 0xFFFFFFFF
+        r = rng.random()
+        if r < 0.5:
+            rdt, ser, recs = IXFR, s0, ixfr_stream(rng, chain)
+        elif r < 0.8:
+            rdt, ser, recs = AXFR, None, axfr_stream(rng, chain[-1])
+        else:
+            rdt, ser, recs = IXFR, s0, axfr_stream(rng, chain[-1])
+        recs = [list(x) for x in recs]
+        if len(recs) < 4:
+            continue
+        shape = rng.choice([0, 0, 1, 1, 2])
+        if shape == 1 or (shape == 0 and rng.random() < 0.4):
+            # an error after part of the stream has been applied: a record that cannot be deleted / a foreign SOA /
+            # a class that is not the zone's, somewhere after the third record
+            pos = rng.randint(3, len(recs) - 1)
+            f = rng.random()
+            if f < 0.4:
+                recs[pos:pos] = [[0, IN, SOA, 0, 300, (5 << 32) | ((s0 + 77) % T32)]]
+            elif f < 0.7:
+                recs[pos:pos] = [[1, CH, TXT, 0, 300, 1]]
+            else:
+                recs[pos:pos] = [[0 if rng.random() < 0.5 else 1, IN, SOA, 0, 300, (1 << 32) | 12345]]
+            keep = None
+        else:
+            # the stream stops early: only a proper prefix of the messages is fed (at least three records of it)
+            keep = rng.randint(3, len(recs) - 1)
+        cuts = rand_cuts(rng, len(recs), allow_empty=False)
+        chunks = split(recs, cuts)
+        if keep is not None:
+            out, cnt = [], 0
+            for c in chunks:
+                if cnt + len(c) > keep:
+                    break
+                out.append(c)
+                cnt += len(c)
+            if cnt < 2:
+                out = [recs[:keep]]
+            chunks = out
+        msgs = [[0, [], [[x[0], x[1], x[2], x[3], x[4], [x[5]]] for x in c]] for c in chunks]
+        yield "usage", [2, zk, rel, rdt, ser, 0, zdump(chain[0]), msgs, [ANY, None], shape]
+
+
 def refresh_cases(ctx, rng, n):
     """end to end: a server with versions V[0..m]; the client (plain / versioned with retained history /
     btree, optionally with a reader pinned across the commits) starts at V[0] (or empty, or unrelated)
@@ -1760,6 +1842,7 @@ def cases(ctx):
     yield from cname_cases(ctx, rng, ctx.n(150, 1500))
     yield from malformed_cases(ctx, rng, ctx.n(300, 4500))
     yield from feed_cases(ctx, rng, ctx.n(200, 2000))
+    yield from usage_cases(ctx, rng, ctx.n(200, 2000))
     yield from refresh_cases(ctx, rng, ctx.n(200, 2500))
     yield from tsig_cases(ctx, rng, ctx.n(60, 600))
     if get_server() is not None:
